@@ -92,6 +92,16 @@ def run(tier, replay=None):
             hb = bytes([hb[0], fl]) + (bytes([1, 2, 3, 4]) if df else b"") + body
             for cut in range(1, 8): reader(1, hb, [cut], 0, 0, 0, 0, True)
             reader(1, hb, [1] * len(hb), 0, 0, 0, 0, True)
+    # every value of each fixed byte of an otherwise well-formed header in turn: magic bytes, compression method, flags (gzip); CMF, FLG (zlib)
+    good = gz_bytes(fields(rng, 2 | 32)) + body
+    for pos in (0, 1, 2, 3):
+        for val in range(256):
+            if tier == "quick" and pos == 3 and val % 4 and val < 224: continue
+            hb = bytearray(good); hb[pos] = val
+            reader(0, bytes(hb), [len(hb)] if val % 2 else [3, 1, len(hb)], 64, 64, 64, 0, False)
+    for cmf in range(256):
+        fl = 0x80; fl += (31 - ((cmf * 256 + fl) % 31)) % 31
+        reader(1, bytes([cmf, fl]) + body, [2 + len(body)] if cmf % 2 else [1, 1 + len(body)], 0, 0, 0, 0, False)
     # arbitrary bytes as headers
     for _ in range(200 if tier == "quick" else 3000):
         hb = bytes(rng.randrange(256) for _ in range(rng.randrange(0, 40)))
